@@ -40,7 +40,7 @@ BUDGET_S = {'quick': 110, 'thorough': 1700}
 
 def bounds(tier):
     return {'propositional': 'premise formulas depth <= 1 over p q (%s), clauses of <= 3 literals, 0-2 premises' % ('quick: second premise sampled' if tier == 'quick' else 'all pairs'),
-            'equality': 'constants a b c, f unary, P unary; clauses <= 3 literals', 'arithmetic': 'x y, coefficients [-2,2], constants [-1,2], int and real',
+            'equality': 'constants a b c, f unary, P unary; clauses <= 3 literals', 'arithmetic': 'x y, coefficients [-2,2], constants [-1,2], int and real; integer rounding: all pairs of literals k*x ~ c (k = 2,3,4; c in [-5,5]; 4 relations, both polarities) with Farkas coefficients (1,1)',
             'quantifier': 'one predicate, <= 2 bound variables'}
 
 
@@ -262,6 +262,64 @@ def arith_family(Tn):
     return ty, lits
 
 
+def simp_family():
+    """Single-literal clauses  lhs <--> rhs  for the *_simplify rules: lhs an (in)equality / comparison or its negation over
+    variables, equal terms and distinct numerals; rhs true, false or a reduced form."""
+    from kernel.type import IntType, RealType
+    from kernel.term import Var, Number, Eq, Not, true, false, And, Or
+    from kernel import term as T
+    atoms, _ = eq_family()
+    out = []
+    lhs = list(atoms[:9])
+    for ty in (IntType, RealType):
+        x, y = Var('x', ty), Var('y', ty)
+        N = lambda n: Number(ty, n)
+        lhs += [Eq(x, y), Eq(x, x), Eq(N(1), N(2)), Eq(N(2), N(2)), Eq(x, N(0)), Eq(x + N(1), x), T.less(ty)(N(1), N(2)), T.less(ty)(N(2), N(1)), T.less(ty)(x, x), T.less_eq(ty)(x, x),
+                T.less_eq(ty)(N(2), N(1)), T.less(ty)(x, y), T.greater_eq(ty)(x, y), T.less_eq(ty)(x + N(1), x)]
+    for l in lhs:
+        for ll in (l, Not(l), Not(Not(l))):
+            for r in (true, false):
+                out.append(Eq(ll, r))
+    return out
+
+
+def run_simp(u, out):
+    goals = simp_family()
+    rl = [r for r in rules() if r != 'verit_th_resolution']
+    for i, g in enumerate(goals):
+        for rn in rl:
+            offer(rn, (g,), [], out, {'part': 'simp', 'i': i, 'rule': rn})
+    out['samples'].append({'simplify_goal': str(goals[0]), 'goals': len(goals)})
+
+
+def round_family(k):
+    """Integer literals over the single form k*x: k*x ~ c and their negations, c in [-5,5] (integer rounding of bounds)."""
+    from kernel.type import IntType
+    from kernel.term import Var, Number, Not
+    from kernel import term as T
+    x = Var('x', IntType)
+    f = T.times(IntType)(Number(IntType, k), x)
+    lits = []
+    for c in range(-5, 6):
+        for rel in (T.less, T.less_eq, T.greater, T.greater_eq):
+            a = rel(IntType)(f, Number(IntType, c))
+            lits += [a, Not(a)]
+    return lits
+
+
+def run_round(u, out):
+    from kernel.term import Number
+    from kernel.type import IntType
+    _, tier, seed, k, lo, hi = u
+    lits = round_family(k)
+    one = Number(IntType, 1)
+    for i in range(lo, min(hi, len(lits))):
+        for j in range(len(lits)):
+            cl = (lits[i], lits[j])
+            offer('verit_la_generic', cl + ([one, one],), [], out, {'part': 'round', 'k': k, 'cl': [i, j], 'rule': 'verit_la_generic'})
+    out['samples'].append({'rounding_clause': [str(lits[lo]), str(lits[0])], 'form': '%d * x' % k})
+
+
 def run_arith(u, out):
     from kernel.thm import Thm
     from kernel.term import Number
@@ -269,7 +327,7 @@ def run_arith(u, out):
     ty, lits = arith_family(Tn)
     rnd = random.Random('c18a-%s-%s-%s' % (seed, Tn, lo))
     rl = [r for r in rules() if r != 'verit_th_resolution']
-    coefs = [Number(ty, c) for c in ((1, 2, -1) if Tn == 'int' else (1, 2, Fraction(1, 2), -1))]
+    coefs = [Number(ty, c) for c in ((1, 2, -1, 0) if Tn == 'int' else (1, 2, Fraction(1, 2), -1, 0))]
     for k in range(lo, hi):
         n = rnd.choice([1, 2, 2, 3])
         cl = tuple(rnd.choice(lits) for _ in range(n))
@@ -340,6 +398,11 @@ def units(tier, seed):
     for Tn in ('int', 'real'):
         for lo in range(0, total, 50):
             us.append(('arith', tier, seed, Tn, lo, lo + 50))
+    us.append(('simp', tier, seed))
+    for k in (2, 3, 4):
+        nl = len(round_family(k))
+        for lo in range(0, nl, 11):
+            us.append(('round', tier, seed, k, lo, lo + 11))
     fs, qlits, _ = quant_family()
     for i in range(len(qlits) if tier == 'thorough' else 60):
         us.append(('quant', tier, seed, i))
@@ -358,6 +421,10 @@ def run_unit(u):
         run_eq(u, out)
     elif u[0] == 'arith':
         run_arith(u, out)
+    elif u[0] == 'round':
+        run_round(u, out)
+    elif u[0] == 'simp':
+        run_simp(u, out)
     else:
         run_quant(u, out)
     del out['_seen']
@@ -427,11 +494,19 @@ def rebuild(c):
             t = consts[c['t']]
             cl = cl + (Eq(Var('x', t.T), t),)
         return rule, cl, [Thm(fs[i]) for i in c['prem']]
+    if part == 'simp':
+        return rule, (simp_family()[c['i']],), []
+    if part == 'round':
+        from kernel.term import Number
+        from kernel.type import IntType
+        lits = round_family(c['k'])
+        one = Number(IntType, 1)
+        return rule, (lits[c['cl'][0]], lits[c['cl'][1]], [one, one]), []
     # arith: regenerate the stream
     from kernel.term import Number
     ty, lits = arith_family(c['T'])
     rnd = random.Random('c18a-%s-%s-%s' % (c['seed'], c['T'], c['lo']))
-    coefs = [Number(ty, x) for x in ((1, 2, -1) if c['T'] == 'int' else (1, 2, Fraction(1, 2), -1))]
+    coefs = [Number(ty, x) for x in ((1, 2, -1, 0) if c['T'] == 'int' else (1, 2, Fraction(1, 2), -1, 0))]
     for k in range(c['lo'], c['k'] + 1):
         n = rnd.choice([1, 2, 2, 3])
         cl = tuple(rnd.choice(lits) for _ in range(n))
